@@ -30,6 +30,7 @@ def run(chk):
     a64common.rule_shift_class(chk, A)
     a64common.rule_sibling_checks(chk, A)
     a64common.rule_shift_lossless(chk, A)
+    a64common.rule_reg_type_seen(chk, A)
     from lib import a64vec
     a64vec.run(chk, A)
     a64vec.run_signature_rows(chk, A)
